@@ -144,6 +144,45 @@ def insert_bad(doc: dict, r, position: str, bad_key: str, n: int):
         elif position == "new_op_bad_status":
             op["responses"]["not-a-status"] = {"description": "bad"}
         d["paths"][path] = {"post": op}
+    elif position in ("existing_op_extra_response", "new_op_inline_then_bad_response"):
+        # a bad response is omitted on its own: the operation and the classes of its other responses stay
+        if position == "existing_op_extra_response":
+            ops = [(path, m, op) for path, m, op, _ in docs.iter_ops(d) if isinstance(op.get("responses"), dict)]
+            if not ops:
+                return None
+            path, m, op = r.choice(ops)
+        else:
+            op = {"operationId": f"zq_mixed_op_{n}", "responses": {"200": {"description": "ok", "content": {"application/json": {"schema": {"type": "object", "properties": {
+                "zq_inner": {"type": "object", "properties": {"deep": {"type": "string"}}}, "zq_kind": {"type": "string", "enum": ["zq_a", "zq_b"]}}}}}}}}
+            d["paths"][f"/zq-mixed-{n}"] = {"get": op}
+        free = [c for c in ("418", "451", "507", "226", "406") if c not in op["responses"]]
+        if not free:
+            return None
+        badresp = {"description": "bad", "content": {"application/json": {"schema": bad}}}
+        if r.random() < 0.7:
+            op["responses"][free[0]] = badresp
+        else:
+            old = dict(op["responses"])
+            op["responses"].clear()
+            op["responses"][free[0]] = badresp
+            op["responses"].update(old)
+    elif position == "shadowed_path_item_param":
+        # a path-item parameter that an operation re-declares (same name and location) is not read for that operation;
+        # the other operations of the path item inherit the bad declaration and are omitted
+        cands = []
+        for path, m, op, item in docs.iter_ops(d):
+            for p_ in op.get("parameters") or []:
+                if isinstance(p_, dict) and p_.get("in") in ("query", "header", "cookie") and isinstance(p_.get("name"), str) and \
+                        not any(isinstance(q, dict) and q.get("name") == p_["name"] and q.get("in") == p_["in"] for q in item.get("parameters") or []):
+                    cands.append((path, m, p_))
+        if not cands:
+            return None
+        path, m, p_ = r.choice(cands)
+        item = d["paths"][path]
+        item.setdefault("parameters", []).append({"name": p_["name"], "in": p_["in"], "schema": bad})
+        for m2 in docs.METHODS:
+            if m2 in item and m2 != m and not any(isinstance(q, dict) and q.get("name") == p_["name"] and q.get("in") == p_["in"] for q in item[m2].get("parameters") or []):
+                touched_ops.add((m2, path))
     else:
         return None
     return d, touched, touched_ops, {"position": position, "bad": bad_key, "fresh": fresh}
@@ -235,7 +274,8 @@ def main() -> int:
     clean = {bi: res for bi, res in enumerate(bres) if not res.get("_error") and not res.get("exc") and res.get("accepted") and not res.get("diags")}
     ev.count("clean_bases", len(clean))
     positions = ["new_component", "new_model_property", "new_array_items", "new_union_member", "new_allof_parent", "new_additional", "existing_model_property", "depended_component", "depended_family", "existing_model_sharing_a_reference", "existing_model_sharing_a_reference",
-                 "new_op_param", "new_op_response", "new_op_body", "new_op_optional_path", "new_op_duplicate_params", "new_op_unparseable_body", "new_op_bad_status"]
+                 "new_op_param", "new_op_response", "new_op_body", "new_op_optional_path", "new_op_duplicate_params", "new_op_unparseable_body", "new_op_bad_status",
+                 "existing_op_extra_response", "new_op_inline_then_bad_response", "shadowed_path_item_param"]
     jobs, info = [], {}
     per_base = 8 if quick else 30
     k = 0
@@ -273,13 +313,14 @@ def main() -> int:
             continue
         ev.count("pairs_compared")
         pos0 = descs[0]["position"] if len(descs) == 1 else "multi"
-        if not res.get("diags"):
+        if not res.get("diags") and not all(x["position"] == "shadowed_path_item_param" for x in descs):
             vd.violation(f"no_diagnostic:{pos0}:{descs[0]['bad'] if pos0.startswith(('new_', 'existing', 'depended')) and not pos0.startswith('new_op_') or pos0 in ('new_op_param', 'new_op_response', 'new_op_body') else 'op'}", f"{label}: bad piece {descs} produced no diagnostic", w)
         if not res.get("accepted"):
             vd.violation(f"whole_document_rejected:{pos0}", f"{label}: inserting {descs} made the generator reject the whole document: {[x['header'] for x in res.get('diags') or []][:2]}", w)
             continue
         dep, dep_ops = dependants(d, touched)
-        exempt, exempt_classes = owner_files(clean[bi]["manifest"], dep if touched else set(), dep_ops if touched else set())
+        dep_ops = (dep_ops if touched else set()) | touched_ops
+        exempt, exempt_classes = owner_files(clean[bi]["manifest"], dep if touched else set(), dep_ops)
         bt, vt = clean[bi]["tree"], res.get("tree") or {}
         for rel, text in bt.items():
             if rel in exempt:
